@@ -124,12 +124,14 @@ static void build_observers() {
   { Obs o; o.name = "relation_with(5A+11B==100)"; o.f = [](C_Polyhedron& p) { return rel_str(p.relation_with(le(5, 11, -100) == 0)); }; OBS.push_back(o); }
   { Obs o; o.name = "is_bounded"; o.f = [](C_Polyhedron& p) { return std::string(p.is_bounded() ? "1" : "0"); }; OBS.push_back(o); }
   { Obs o; o.name = "affine_dimension"; o.f = [](C_Polyhedron& p) { return std::to_string(p.affine_dimension()); }; OBS.push_back(o); }
-  { Obs o; o.name = "contains_integer_point"; o.f = [](C_Polyhedron& p) { return std::string(p.contains_integer_point() ? "1" : "0"); }; OBS.push_back(o); }
+  // (contains_integer_point is not used: its branch-and-bound needs gigabytes / minutes on some depth-4 histories in every build)
+  { Obs o; o.name = "constrains(B)"; o.f = [](C_Polyhedron& p) { return std::string(p.constrains(Variable(1)) ? "1" : "0"); }; OBS.push_back(o); }
+  { Obs o; o.name = "bounds_from_above(2A-3B)"; o.f = [](C_Polyhedron& p) { return std::string(p.bounds_from_above(le(2, -3, 0)) ? "1" : "0"); }; OBS.push_back(o); }
   { Obs o; o.name = "contains(box[1,2]x[0,1])"; o.f = [](C_Polyhedron& p) { C_Polyhedron q = box(1, 2, 0, 1); return std::string(p.contains(q) ? "1" : "0"); }; OBS.push_back(o); }
 }
 
 // ---- executing one step / one observer, classifying exceptions
-enum { CNT_HIST = vf::CNT_USER, CNT_HIST_OVF, CNT_OBS, CNT_OBS_OVF, CNT_CMP, CNT_CMP_SKIP_OVF, CNT_OTHER_EXC, CNT_NOT_OK };
+enum { CNT_HIST = vf::CNT_USER, CNT_HIST_OVF, CNT_OBS, CNT_OBS_OVF, CNT_CMP, CNT_CMP_SKIP_OVF, CNT_OTHER_EXC, CNT_NOT_OK, CNT_OK_INCONCLUSIVE };
 static std::string apply(C_Polyhedron& p, int op) {   // "" or an exception tag
   try { MENU[op].f(p); vf::count(vf::CNT_TRANS); return ""; }
   catch (const std::overflow_error&) { return "OVERFLOW"; }
@@ -195,7 +197,9 @@ static bool check_ok_after_overflow(C_Polyhedron* p, const std::vector<int>& h) 
   int sig = sigsetjmp(JB, 1);
   if (sig == 0) {
     JB_ON = 1;
-    try { ok = p->OK(); } catch (const std::exception& e) { ok = false; how = std::string("OK() threw ") + e.what(); }
+    // OK() computes scalar products itself: in a bounded build it may overflow on a perfectly valid object (inconclusive)
+    try { ok = p->OK(); } catch (const std::overflow_error&) { ok = true; vf::count(CNT_OK_INCONCLUSIVE); }
+    catch (const std::exception& e) { ok = false; how = std::string("OK() threw ") + e.what(); }
     JB_ON = 0;
   } else { ok = false; usable = false; how = std::string("OK() crashed: ") + vf::signame(sig); clause = "overflow:OK()-crashes-after-overflow_error"; install_guard(); }
   if (!ok) {
@@ -377,12 +381,18 @@ int main(int argc, char** argv) {
   if (!ARGS.opt("--only-item", "").empty()) { fn(atoll(ARGS.opt("--only-item", "0").c_str()), 0); return 0; }   // debugging aid: in-process
   vf::pool().run(N, ARGS.jobs, fn, cf, ARGS, 120);
   bool complete = vf::counter(vf::CNT_SKIPPED) == 0;
+  if (!EMIT && ARGS.has("--cleanup"))   // the answer directories of a depth-4 run take ~2 GB
+    for (size_t b = 0; b < DIRS.size(); ++b) {
+      for (long long it = 0; it < N; ++it) unlink((DIRS[b] + "/" + std::to_string(it) + ".txt").c_str());
+      rmdir(DIRS[b].c_str());
+    }
   J extra;
   extra.str("mode", EMIT ? "emit" : "compare").str("build", EMIT ? LABEL : "mpz (prod)").num("menu_operations", M).num("observers", (long long)OBS.size()).num("depth", DEPTH)
     .num("histories", vf::counter(CNT_HIST)).num("histories_ended_by_overflow_error", vf::counter(CNT_HIST_OVF))
     .num("histories_ended_by_other_exception", vf::counter(CNT_OTHER_EXC)).num("observer_answers", vf::counter(CNT_OBS))
     .num("observer_answers_overflow", vf::counter(CNT_OBS_OVF)).num("comparisons", vf::counter(CNT_CMP))
-    .num("comparisons_excused_by_overflow_error", vf::counter(CNT_CMP_SKIP_OVF)).num("objects_not_OK_after_overflow", vf::counter(CNT_NOT_OK));
+    .num("comparisons_excused_by_overflow_error", vf::counter(CNT_CMP_SKIP_OVF)).num("objects_not_OK_after_overflow", vf::counter(CNT_NOT_OK))
+    .num("OK_check_itself_overflowed_inconclusive", vf::counter(CNT_OK_INCONCLUSIVE));
   std::vector<std::string> samples; { std::vector<int> h; h.push_back(5); h.push_back(15); h.push_back(22); samples.push_back(hist_json(h)); }
   J st; st.str("t", "stats").num("states", std::max<long long>(1, vf::counter(CNT_HIST))).num("transitions", std::max<long long>(1, vf::counter(vf::CNT_TRANS)))
     .num("traces_validated_against_impl", EMIT ? vf::counter(CNT_HIST) : vf::counter(CNT_CMP)).boolean("exhaustive", complete)
